@@ -79,12 +79,19 @@ def cases(tier, seed):
     # feed rows that carry no results yet (NaN): under 'drop' the unit leaves the baseline join and is passed through as
     # unexpected, under 'zero' it counts as 0 votes at 0 percent; either way it must appear exactly once
     for loc in ("pop0", "newcounty", "newstate"):
-        for setup in ("np1", "np2", "ga1"):
+        for setup in ("np1", "np2", "ga1", "bs1"):
             for policy in ("drop", "zero"):
                 for agg in ("all", "pc"):
                     for second in (None, ["nonrep_partial", "pop1"], ["unexpected", "pop0"]):
                         probes = [["nan_result", loc]] + ([second] if second else [])
                         out.append(dict(seed=seed, bg=S.bg_for(setup), probes=probes, cfg=S.cfg_for(setup, agg, policy, 100)))
+    # a whole state outside the model, one of whose units has not shown up in the feed at all (under 'zero' it counts as a
+    # unit without votes, under 'drop' it is left out)
+    for setup in ("np1", "np2", "ga1", "bs1"):
+        for policy in ("zero", "drop"):
+            for agg in ("all", "pc"):
+                for second in (["missing", "newstate"], ["nan_result", "newstate"]):
+                    out.append(dict(seed=seed, bg=S.bg_for(setup), probes=[["state_blocklisted", "newstate"], second], cfg=S.cfg_for(setup, agg, policy, 100)))
     # outlier models enabled (the default of the public API): 24 reporting units, one of them an outlier for both the
     # turnout-factor and the margin model, one for the margin model only
     for setup in ("bs1", "np1", "ga1"):
@@ -100,11 +107,11 @@ def cases(tier, seed):
         )
         for tr in S.multisets(rtypes, 3):
             out.append(dict(seed=seed, bg=S.bg_for("np1"), probes=[list(p) for p in tr], cfg=S.cfg_for("np1", "all", "zero", 100)))
-    return out
+    return S.rotate_row_orders(out)
 
 
 def describe(case):
-    return {"probes": case["probes"], "cfg": {k: case["cfg"][k] for k in ("office", "pi_method", "estimands", "aggregates", "policy", "threshold")}, "bg": case["bg"]}
+    return {"probes": case["probes"], "cfg": {k: case["cfg"][k] for k in ("office", "pi_method", "estimands", "aggregates", "policy", "threshold")}, "bg": case["bg"], "input_row_order": case["cfg"].get("row_order") or "sorted"}
 
 
 def _close(a, b, rel=1e-9):
@@ -188,6 +195,9 @@ def check_tables(units, cfg, tables, V, cov):
                 got = r[f"results_{e}"]
                 if e == "margin":
                     pt = r["pred_turnout"]
+                    if isinstance(pt, str):
+                        viol("group-not-finite", f"{tname} {key}: pred_turnout={pt} (results_margin={got}; members fit={g['fit']} predict={g['predict']} other={g['passthrough']})")
+                        continue
                     exp = 0.0 if pt == 0 else g["results"][e] / pt
                     ok = isinstance(got, (int, float)) and not isinstance(got, str) and _close(float(got), exp)
                 else:
